@@ -90,13 +90,13 @@ class PyArrowMissingValueFeatureGroup(MissingValueFeatureGroup):
             # Perform non-grouped imputation
             if imputation_method == "mean":
                 fill_value = pc.mean(source_column).as_py()
-                return pc.fill_null(source_column, fill_value)
+                return cls._fill_null(source_column, fill_value)
             elif imputation_method == "median":
                 # PyArrow doesn't have a direct median function
                 # We can approximate it using quantile with q=0.5
                 result = pc.quantile(source_column, q=0.5)
                 fill_value = result[0].as_py() if len(result) > 0 else None
-                return pc.fill_null(source_column, fill_value)
+                return cls._fill_null(source_column, fill_value)
             elif imputation_method == "mode":
                 # PyArrow doesn't have a direct mode function
                 # We need to compute the mode manually
@@ -119,7 +119,7 @@ class PyArrowMissingValueFeatureGroup(MissingValueFeatureGroup):
 
                 return source_column
             elif imputation_method == "constant":
-                return pc.fill_null(source_column, constant_value)
+                return cls._fill_null(source_column, constant_value)
             elif imputation_method == "ffill":
                 # Forward fill implementation
                 return cls._perform_fill_direction(source_column, "forward")
@@ -160,6 +160,16 @@ class PyArrowMissingValueFeatureGroup(MissingValueFeatureGroup):
             return pa.array(result)
 
     @classmethod
+    def _fill_null(cls, column: Any, fill_value: Any) -> Any:
+        """
+        pc.fill_null casts the fill value to the column type, so a fractional value (a mean of 3.5, a constant of
+        2.5) put into an integer column would silently be truncated. Widen such a column to float64 first.
+        """
+        if isinstance(fill_value, float) and not fill_value.is_integer() and pa.types.is_integer(column.type):
+            column = pc.cast(column, pa.float64())
+        return pc.fill_null(column, fill_value)
+
+    @classmethod
     def _perform_grouped_imputation(
         cls,
         data: pa.Table,
@@ -186,7 +196,7 @@ class PyArrowMissingValueFeatureGroup(MissingValueFeatureGroup):
 
         if imputation_method == "constant":
             # Constant imputation is the same regardless of groups
-            return pc.fill_null(source_column, constant_value)
+            return cls._fill_null(source_column, constant_value)
 
         # Calculate the overall imputation value to use as fallback
         overall_value = None
